@@ -2,6 +2,8 @@
 pub mod c04;
 pub mod c05;
 pub mod c08;
+pub mod c11;
+pub mod c11_core;
 pub mod c17;
 pub mod c20;
 pub mod tree;
